@@ -158,6 +158,13 @@ class C11(WigBedProp):
             # values: small integers / arbitrary finite f32 patterns, and a few non-finite ones (legal in a bigWig; the
             # statement asks for the same text whatever the values are)
             names, sizes, data, _ = bbgen.gen_wig_input(r, nchrom=5, value_mode="int" if k % 2 == 0 else "bits", maxn=60)
+            # every other file: chromosomes in an order that is not the byte order of their names (written with -s start):
+            # the converters must keep the FILE's chromosome order for every thread count
+            free_order = (k % 2 == 1)
+            sflag = ["-s", "start"] if free_order else []
+            if free_order:
+                names = sorted(names, reverse=True)
+                names = names[1:] + names[:1]
             special = {}
             for n in names:
                 for i in range(len(data[n])):
@@ -173,8 +180,11 @@ class C11(WigBedProp):
                     for i, (s, e, b) in enumerate(data[n]):
                         f.write(f"{n}\t{s}\t{e}\t{special.get((n, i), bbgen.bits_f32(b))}\n")
             bw = os.path.join(d, f"i{k}.bw")
-            subprocess.run([repo_bin("bedgraphtobigwig"), bg, sz, bw], capture_output=True)
+            subprocess.run([repo_bin("bedgraphtobigwig"), bg, sz, bw] + sflag, capture_output=True)
             bnames, bsizes, bdata, _ = bbgen.gen_bed_input(r, nchrom=5, maxn=40)
+            if free_order:
+                bnames = sorted(bnames, reverse=True)
+                bnames = bnames[1:] + bnames[:1]
             bsz = os.path.join(d, f"b{k}.sizes")
             with open(bsz, "w") as f:
                 for n in bsizes:
@@ -185,7 +195,7 @@ class C11(WigBedProp):
                     for (s, e, rest) in bdata[n]:
                         f.write(f"{n}\t{s}\t{e}" + (f"\t{rest}" if rest else "") + "\n")
             bb = os.path.join(d, f"i{k}.bb")
-            subprocess.run([repo_bin("bedtobigbed"), bedp, bsz, bb], capture_output=True)
+            subprocess.run([repo_bin("bedtobigbed"), bedp, bsz, bb] + sflag, capture_output=True)
             for tool, src in (("bigwigtobedgraph", bw), ("bigbedtobed", bb)):
                 if not os.path.exists(src):
                     rep.notes.append(f"{tool}: input file could not be prepared")
